@@ -47,6 +47,10 @@ def timeout(tier):
 
 
 def gen_acct(rng):
+    if rng.random() < 0.08:
+        # an IBAN-length number, beyond the 22 characters OFX allows for an account id: the library warns and uses it whole (two of them
+        # agree in their first 22 characters)
+        return "FR7630006000011234567890" + rng.choice(["189", "188", "1897", "XY"]) + str(rng.randint(0, 9))
     return rng.choice(["", "X", "00"]) + str(rng.randint(1, 9999999)) + rng.choice(["", "-1", "A", ".9", " 01", " 2 3", ";4"])
 
 
@@ -252,7 +256,8 @@ def one_all(ctx, net, rng, idx):
             kind = "cc"
         if shape == "only-cc":
             kind = "cc"
-        a = {"kind": kind, "acctid": gen_acct(rng), "status": status}
+        # whether the account supports transaction download is a detail of the listing: ACTIVE is what decides
+        a = {"kind": kind, "acctid": gen_acct(rng), "status": status, "suptxdl": rng.choice(["Y", "Y", "N"])}
         if kind == "bank":
             a.update(accttype=rng.choice(["CHECKING", "SAVINGS", "MONEYMRKT", "CREDITLINE", "CD"]), bankid=bankid)
         if kind == "inv":
@@ -262,6 +267,11 @@ def one_all(ctx, net, rng, idx):
         accounts.append(a)
     if shape in ("mixed",) and not any(a["status"] == "ACTIVE" and a["kind"] != "bp" and a.get("accttype") != "CD" for a in accounts):
         accounts.append({"kind": "cc", "acctid": gen_acct(rng), "status": "ACTIVE"})
+    if rng.random() < 0.25:
+        # the server lists one of its accounts a second time (another <ACCTINFO>, e.g. of another service): it is still one account
+        twice = rng.choice(accounts)
+        accounts.append(dict(twice))
+        ctx.count("responses_listing_an_account_twice")
     # each ACCTINFO may hold one *ACCTINFO of each kind: the template packs them into as many groups as needed
     ctx.count("inactive_accounts_offered", sum(1 for a in accounts if a["status"] != "ACTIVE"))
     active = {t: [] for t in ALLTYPES}
@@ -269,11 +279,15 @@ def one_all(ctx, net, rng, idx):
         if a["status"] != "ACTIVE":
             continue
         if a["kind"] == "bank" and a["accttype"] != "CD":
-            active[a["accttype"].lower()].append(a["acctid"])
+            t = a["accttype"].lower()
         elif a["kind"] == "cc":
-            active["creditcard"].append(a["acctid"])
+            t = "creditcard"
         elif a["kind"] == "inv":
-            active["investment"].append(a["acctid"])
+            t = "investment"
+        else:
+            continue
+        if a["acctid"] not in active[t]:
+            active[t].append(a["acctid"])
     # optionally a configuration section that already lists accounts (as one written by an earlier '--all --write' would): of kinds
     # the server still reports ACTIVE accounts of, of kinds it reports none of, and accounts it now reports as not ACTIVE
     section = {"url": "https://all.example.org/ofx", "user": "alluser"}
